@@ -26,6 +26,8 @@ class Interp:
         self.prov = {}       # var id -> {byte: shift}
         self.narrow = []     # shifts wider than their operand
         self.steps = 0
+        self.advance = 0     # total the source pointer was advanced by (`_ptr += n`)
+        self.depth = 0
 
     # ---- concrete side
     def concrete(self, e):
@@ -99,6 +101,18 @@ class Interp:
             return self.value(e['y'])
         if k == 'construct' and len(e.get('a', [])) == 1:
             return self.value(e['a'][0])
+        if k == 'call' and e.get('fn') and not e.get('a') and self.depth < 3:
+            # a helper of the same object that assembles and returns the value
+            cands = [g for g in self.prog.fn(e['fn'], e.get('sig')) if g.get('body')]
+            if cands:
+                sub = Interp(self.prog, cands[0], self.is_source, self.bind)
+                sub.depth = self.depth + 1
+                r = sub.stmt(cands[0]['body'])
+                self.advance += sub.advance
+                self.narrow += sub.narrow
+                if r is None or r.get('e') is None:
+                    raise Top('helper %s returns no value' % e['fn'])
+                return sub.value(r['e'])
         raise Top('expression `%s`' % pe(e0))
 
     def assign(self, tgt, op, rhs):
@@ -149,6 +163,9 @@ class Interp:
     def expr(self, e):
         e = strip(e)
         k = e.get('k')
+        if k == 'bin' and e.get('op') == '+=' and self.is_source(strip_lv(e['x'])):
+            self.advance += self.concrete(e['y'])
+            return
         if k == 'bin' and e.get('op', '').endswith('=') and e['op'] not in ('==', '!=', '<=', '>='):
             t = strip_lv(e['x'])
             if t.get('k') == 'var' and t.get('id') in self.ints:
@@ -248,6 +265,8 @@ def assembled(prog, f, is_source, bind, target):
     try:
         it.stmt(f['body'])
         e = target(it)
-        return it.value(e), it.narrow
+        v = it.value(e)
+        assembled.last_advance = it.advance
+        return v, it.narrow
     except Undecidable as u:
         raise Top(str(u))
